@@ -530,7 +530,7 @@ fn main() {
                     // C06: the same call with and without MALACHITE must be identical
                     for case in 0..n {
                         let op = *r.pick(&[19u8, 20, 61, 60]);
-                        let fl = rand_flags(&mut r) & !0x1000;
+                        let mut fl = rand_flags(&mut r) & !0x1000;
                         let big = r.chance(1, 4);
                         let a = if r.chance(1, 6) { rand_args(&mut r, 16, true) } else { rand_args(&mut r, op, big) };
                         let mut a = a;
@@ -538,7 +538,15 @@ fn main() {
                         if r.chance(1, 6) && op != 60 {
                             // the ORDER of the checks: an error condition (zero divisor in any spelling, pair operand,
                             // oversized operand) together with a budget around the operator's cost
-                            let dividend = rand_arg(&mut r, false);
+                            let dividend = if r.chance(1, 3) {
+                                // above / at the DISABLE_OP (2048) and LIMITS (256) sizes of the dividend
+                                let n = *r.pick(&[256usize, 257, 2048, 2049]);
+                                let mut b = r.bytes(n);
+                                b[0] &= 0x7f;
+                                atom_json(&b)
+                            } else {
+                                rand_arg(&mut r, false)
+                            };
                             let zero = match r.below(6) {
                                 0 => atom_json(&[]),
                                 1 => atom_json(&[0]),
@@ -548,7 +556,11 @@ fn main() {
                                 _ => rand_arg(&mut r, true),
                             };
                             a = json!({"f": dividend, "r": {"f": zero, "r": atom_json(&[])}});
-                            max = match r.below(4) {
+                            if r.chance(1, 2) { fl |= 0x0200; }
+                            if r.chance(1, 2) { fl |= 0x0040; }
+                            if r.chance(2, 3) { fl &= !0x2000; }
+                            max = match r.below(5) {
+                                4 => u64::MAX,
                                 0 => r.below(1400),
                                 1 => 900 + r.below(400),
                                 2 => r.below(8),
